@@ -24,7 +24,10 @@ CLAIMED = {
             "A v = lambda v, U S Vt = A) and differential comparison with complete-pivoting / Householder / Jacobi oracles in long double",
             "Generated-input search over structured families (general with known spectrum, permutation, permuted triangular with singular "
             "leading minors, triangular, diagonal, SPD, indefinite; rectangular tall/wide) with condition number measured by the oracle; "
-            "tolerances proportional to n*eps*kappa (kappa^2 for normal-equation routines). Exploration of the counted cases only.",
+            "both inverse routines, both pseudo-inverse routines (MatrixMoorePenrosePseudoinverse, MatrixPseudoinversion), both SVD entry "
+            "points (SVDlapack, SVD), SolveLSE, OrdinaryLeastSquares, EVectEval, determinant; result containers fresh, re-used with the "
+            "result's shape, or re-used with another shape; tolerances proportional to n*eps*kappa (kappa^2 for normal-equation routines). "
+            "Exploration of the counted cases only.",
             "Trusted: oracle solvers in /verif/engine/oracle.hpp; system LAPACK is part of the tested code path, not of the oracle.",
             "DESIGN.md section 5, C12"),
     "C01": ("property-based testing (rapidcheck, forked ASan/UBSan children): PCA identities recomputed in long double from an "
@@ -89,7 +92,7 @@ CLAIMED = {
             'Trusted: reference metrics in props/C17.cpp.',
             "DESIGN.md section 5, C17"),
     "C19": ('property-based testing (rapidcheck): piece identities and differential against a long-double natural spline, metamorphic unit change of x, exact polyline integral and additivity, simplex contracts on quadratics with known minimum',
-            'Generated-input search over knot vectors with spacings 1e-4..1e4 (uniform, irregular, mixed by 6 decades), polylines, strictly convex quadratics in 2..6 dimensions. Exploration of the counted cases only.',
+            'Generated-input search over knot vectors with spacings 1e-4..1e4 (uniform, irregular, mixed by 6 decades), polylines, strictly convex quadratics in 2..6 dimensions (random rotated ones and grid-aligned ones with integer curvatures / half-integer starts and steps, on which objective values tie exactly). Exploration of the counted cases only.',
             'Trusted: reference spline in props/C19.cpp; the simplex convergence bound (1e-6 of the initial gap) is calibrated, see DESIGN.md section 7.',
             "DESIGN.md section 5, C19"),
     "C16": ('stateful property-based testing (rapidcheck, forked ASan/UBSan children): write/read histories over model files checked against a map path -> model last written; round-trip and prediction-equality oracles',
@@ -101,7 +104,7 @@ CLAIMED = {
             "Trusted: 'bounded' means below 200000 NIPALS iterations / 5000 k-means++ passes (two orders above the slowest genuine case observed); oracle SVD for the numerical rank.",
             "DESIGN.md section 5, C18"),
     "C20": ("Hypothesis (python3-vt) differential between the repository's Python package and the same calls made from a C helper compiled against the current headers; live-object field reads through ctypes _fields_ vs the C view; compiled sizeof/offsetof table of the 10 mirrored structures",
-            "Generated containers, PCA/PLS/CPCA fits, selections and splines through the package wrappers: every returned value and every model field equals what C sees; layout (size, offsets, member kinds, order) of all mirrored structures equals the compiler's. Decides the behaviourally visible part of the property; a parameter whose declared integer width differs without effect under the x86-64 ABI (lsci.PCA scaling: c_size_t vs int) is not detectable by generated inputs and is not claimed.",
+            "Generated containers (integer elements over the full width of their C type, boundary-biased), PCA/PLS/CPCA fits, selections and splines through the package wrappers: every returned value and every model field equals what C sees; layout (size, offsets, member kinds, order) of all mirrored structures equals the compiler's. Decides the behaviourally visible part of the property; a parameter whose declared integer width differs without effect under the x86-64 ABI (lsci.PCA scaling: c_size_t vs int) is not detectable by generated inputs and is not claimed.",
             "Trusted: gcc's layout of the current headers; hypothesis 6.168; the worker runs in a subprocess so a crash of the bindings is an observed outcome.",
             "DESIGN.md section 5, C20"),
 }
